@@ -260,6 +260,8 @@ func replayChain(drv *vh.Driver, body []string) (bool, string) {
 	return true, strings.Join(ws, "\n")
 }
 
+var chainReported = map[string]int{}
+
 func chainLevel(c *vh.Ctx, drv *vh.Driver) error {
 	res := c.Res
 	steps := c.N(40, 400)
@@ -317,6 +319,11 @@ func chainLevel(c *vh.Ctx, drv *vh.Driver) error {
 					continue
 				}
 				seen[key] = true
+				chainReported[key]++
+				res.Dist("failure:chain:" + key)
+				if chainReported[key] > 2 {
+					continue // the first two of a kind are written; the rest only counted (the result file is bounded)
+				}
 				rp := vh.WriteReplay(c.ReplayDir, "C05", fmt.Sprintf("chain%d-%s-%d", i, strings.ReplaceAll(key, "/", "-"), c.Seed), c.Seed,
 					[]string{"chain script", "failure " + f.kind + " " + f.matcher, strings.ReplaceAll(f.what, "\n", " | ")}, cr.script)
 				res.Fail(f.kind, f.matcher, f.what, rp)
